@@ -43,6 +43,7 @@ def source_files():
 
 def tree_hash(files=None):
     h = hashlib.sha256()
+    h.update(b"build-recipe-v2")      # bump when the set of build products changes
     for rel in files or source_files():
         h.update(rel.encode())
         h.update(b"\0")
@@ -88,6 +89,12 @@ def build(verbose=False):
                              os.path.join(dest, "libdd.so")] + csrc + ["-lm"],
                             stdout=log, stderr=subprocess.STDOUT, timeout=600)
         status["libdd_rc"] = r2.returncode
+        # AddressSanitizer + UBSan build of the same sources (C08)
+        r3 = subprocess.run(["clang", "-fsanitize=address,undefined", "-fno-sanitize-recover=undefined",
+                             "-fno-omit-frame-pointer", "-g", "-O1", "-fPIC", "-shared", "-fopenmp=libgomp", "-I", cdir,
+                             "-o", os.path.join(dest, "libdd_asan.so")] + csrc + ["-lm"],
+                            stdout=log, stderr=subprocess.STDOUT, timeout=600)
+        status["libdd_asan_rc"] = r3.returncode
         status["wall_s"] = round(time.time() - t0, 1)
         import json
         with open(os.path.join(dest, "status.json"), "w") as fh:
